@@ -56,6 +56,65 @@ def _inv_fmix(h):
     return h
 
 
+def _scramble(k):
+    k = (k * 0xCC9E2D51) & M
+    k = _rotl(k, 15)
+    return (k * 0x1B873593) & M
+
+
+def preimage_middle(prefix: bytes, suffix: bytes, target: int, seed: int = 0, tries=400000):
+    """-> a printable byte string X (letters and digits) such that murmur3(prefix + X + suffix, seed) == target: the block in front
+    of `suffix` is solved for after the rounds of the suffix have been undone from the target (every round is a bijection of the
+    32-bit state for a given block)."""
+    ok = set(range(0x30, 0x3A)) | set(range(0x41, 0x5B)) | set(range(0x61, 0x7B))
+    inv5, invc1, invc2 = pow(5, -1, 1 << 32), pow(0xCC9E2D51, -1, 1 << 32), pow(0x1B873593, -1, 1 << 32)
+    pad0 = b"a" * ((-len(prefix)) % 4)
+    alphabet = b"abcdefghijklmnopqrstuvwxyz0123456789"
+    nb = len(suffix) // 4
+    tail = suffix[4 * nb:]
+    kt = 0
+    for i, b in enumerate(tail):
+        kt |= b << (8 * i)
+    kt = _scramble(kt) if tail else 0
+    for t in range(tries):
+        filler, x = b"", t
+        for _ in range(4):
+            filler += alphabet[x % 36:x % 36 + 1]
+            x //= 36
+        head = prefix + pad0 + filler
+        n = len(head) + 4 + len(suffix)
+        h = seed & M
+        for i in range(len(head) // 4):
+            (k,) = struct.unpack_from("<I", head, 4 * i)
+            h ^= _scramble(k)
+            h = _rotl(h, 13)
+            h = (h * 5 + 0xE6546B64) & M
+        w = _inv_fmix(target) ^ n
+        w ^= kt
+        for i in reversed(range(nb)):
+            (k,) = struct.unpack_from("<I", suffix, 4 * i)
+            w = _rotl(((w - 0xE6546B64) * inv5) & M, 32 - 13) ^ _scramble(k)
+        x = _rotl(((w - 0xE6546B64) * inv5) & M, 32 - 13)
+        k = x ^ h
+        k = (k * invc2) & M
+        k = _rotl(k, 32 - 15)
+        k = (k * invc1) & M
+        last = struct.pack("<I", k)
+        if all(b in ok for b in last):
+            out = pad0 + filler + last
+            assert murmur3(prefix + out + suffix, seed) == target
+            return out
+    return None
+
+
+def tie_node(node: str, key: str, stem: str = "tie", seed: int = 0) -> str:
+    """-> another node name (stem + letters and digits) whose rendezvous score for `key` equals that of `node` exactly: a genuine
+    32-bit collision of the built-in hash, computed separately for each node - the tie the published rule breaks by name"""
+    target = murmur3(("%s-%s" % (node, key)).encode("latin-1"), seed)
+    x = preimage_middle(stem.encode("latin-1"), ("-%s" % key).encode("latin-1"), target, seed)
+    return stem + x.decode("latin-1")
+
+
 def preimage_suffix(prefix: bytes, target: int, seed: int = 0, printable=True, tries=200000):
     """-> a byte string S (pad + 4 bytes, printable ASCII without blanks when asked) such that murmur3(prefix + S, seed) == target.
     The last full block of the input is solved for: every step of the hash is a bijection of the 32-bit state."""
